@@ -380,6 +380,21 @@ func c01GenProg(r *VRand, stats *VStats, maxRules int) *c01Prog {
 		}
 	}
 	tb.WriteString("  fallback: " + c01OutText(p.fbName, p.fbMark, p.fbMust, p.fbStyle) + "\n}\n")
+	// domain key groups with their real patterns, for the composed C01∘C11 model path
+	fmt.Fprintf(&mb, " D %d", len(p.domGroups))
+	rxId := 0
+	for _, g := range p.domGroups {
+		fmt.Fprintf(&mb, " %s %d", g.key, len(g.vals))
+		for vi := range g.vals {
+			if g.key == "regex" {
+				g.vals[vi].lo = rxId // reuse the int field as the regex id
+				fmt.Fprintf(&mb, " %d", rxId)
+				rxId++
+			} else {
+				fmt.Fprintf(&mb, " %s", hex.EncodeToString([]byte(g.vals[vi].pat)))
+			}
+		}
+	}
 	p.text = tb.String()
 	p.modelTokens = mb.String()
 	return p
@@ -618,9 +633,28 @@ func TestVerifC01(t *testing.T) {
 			if !viaRoute && r.Chance(0.3) {
 				ipver = 3 - ipver // Match called directly with the other version bit
 			}
-			op := fmt.Sprintf("pkt %s %s %d %d %d %d %s %d %s %s",
+			nameTok, rxTok := "-", "-"
+			if pk.domain != "" && len(p.domGroups) > 0 {
+				nameTok = hex.EncodeToString([]byte(pk.domain))
+				var hits []string
+				for _, g := range p.domGroups {
+					if g.key != "regex" {
+						continue
+					}
+					for _, v := range g.vals {
+						if ok, _ := regexp.MatchString(v.pat, pk.domain); ok {
+							hits = append(hits, fmt.Sprint(v.lo))
+						}
+					}
+				}
+				if len(hits) > 0 {
+					rxTok = strings.Join(hits, ",")
+				}
+				stats.Inc("pkt.with_name_composed_path")
+			}
+			op := fmt.Sprintf("pkt %s %s %d %d %d %d %s %d %s %s N %s %s",
 				hex.EncodeToString(src16[:]), hex.EncodeToString(dst16[:]), pk.sport, pk.dport, ipver, int(pk.l4),
-				hex.EncodeToString(pk.pname[:]), pk.dscp, hex.EncodeToString(mac16[:]), dom)
+				hex.EncodeToString(pk.pname[:]), pk.dscp, hex.EncodeToString(mac16[:]), dom, nameTok, rxTok)
 			out := VRecover(func() string {
 				var ob consts.OutboundIndex
 				var mark uint32
